@@ -152,6 +152,15 @@ func configsBase(tier string) []xplore.Config {
 				Data: cfgData{scripts: map[string][]session{"t1": sc}, targets: []string{"t1"}, ctls: c, recvTimeout: true, rounds: 5}})
 		}
 	}
+	// an UNUSABLE response (empty: neither update nor sync) as the last thing the
+	// target says before it goes silent - also as the very first message: the
+	// silence after it is silence all the same
+	for _, sc := range [][]session{{{msgs: "un", end: "silence"}}, {{msgs: "n", end: "silence"}}, {{msgs: "usn", end: "silence"}}, {{msgs: "nn", end: "silence"}, {msgs: "u", end: "silence"}}} {
+		for _, c := range [][]ctl{nil, {{"reconnect", 1}}} {
+			out = append(out, xplore.Config{Name: fmt.Sprintf("t1=%s ctl=%v recvTimeout=on (unusable response, then silence)", scriptName(sc), c), Bound: bound,
+				Data: cfgData{scripts: map[string][]session{"t1": sc}, targets: []string{"t1"}, ctls: c, recvTimeout: true, rounds: 5}})
+		}
+	}
 	// no receive timeout
 	for _, sc := range scripts[:16] {
 		out = append(out, xplore.Config{Name: fmt.Sprintf("t1=%s ctl=[] recvTimeout=off", scriptName(sc)), Bound: bound,
